@@ -73,33 +73,64 @@ Definition aggregate_rows (l : list row) : list row := fold_left (fun acc r => a
    first occurrence of each distinct row and, for every row, the position of its class; the
    code then un-sorts by the first-occurrence index.  `uniq` below enumerates the classes in
    an arbitrary order given by `perm` (np.unique: lexicographic) - the result must not depend on it *)
-Definition first_index (l : list row) (v : list Qc) : nat :=
-  let fix go (l : list row) (i : nat) : nat :=
-    match l with [] => i | r :: rest => if qlist_eqb (vals r) v then i else go rest (S i) end in go l 0%nat.
+Definition rowz : row := mkRow [] 0 0%Z 0 [].
+Fixpoint first_index (l : list row) (v : list Qc) : nat :=
+  match l with [] => 0%nat | r :: rest => if qlist_eqb (vals r) v then 0%nat else S (first_index rest v) end.
 Fixpoint distinct_firsts (l : list row) (i : nat) (seen : list (list Qc)) : list nat :=
   match l with
   | [] => []
   | r :: rest => if existsb (qlist_eqb (vals r)) seen then distinct_firsts rest (S i) seen
                  else i :: distinct_firsts rest (S i) (vals r :: seen)
   end.
-Definition pos_of (x : nat) (l : list nat) : nat := idx_of x l.
-(* order = argsort(indices); indices' = indices[order]; revorder[order] = arange; inverse' = revorder[inverse] *)
+Fixpoint idx_val (v : list Qc) (u : list (list Qc)) : nat :=
+  match u with [] => 0%nat | w :: r => if qlist_eqb w v then 0%nat else S (idx_val v r) end.
+
+(* np.unique(sample, axis=0, return_index=True, return_inverse=True): the distinct rows in
+   lexicographic order, for each the index of its first occurrence, and for every row of the
+   input the position of its value among the distinct rows.  Mirrored by an insertion sort
+   without duplicates. *)
+Definition qlt (a b : Qc) : bool := negb (Qle_bool b a).
+Fixpoint lex_lt (a b : list Qc) : bool :=
+  match a, b with
+  | [], [] => false
+  | [], _ :: _ => true
+  | _ :: _, [] => false
+  | x :: a', y :: b' => if Qc_eqb x y then lex_lt a' b' else qlt x y
+  end.
+Fixpoint lex_insert (v : list Qc) (u : list (list Qc)) : list (list Qc) :=
+  match u with
+  | [] => [v]
+  | w :: r => if qlist_eqb w v then u else if lex_lt v w then v :: u else w :: lex_insert v r
+  end.
+Definition np_unique_rows (l : list row) : list (list Qc) := fold_right (fun r u => lex_insert (vals r) u) [] l.
+Definition np_unique (l : list row) : list (list Qc) * list nat * list nat :=
+  let u := np_unique_rows l in (u, map (first_index l) u, map (fun r => idx_val (vals r) u) l).
+
+(* order = np.argsort(indices) *)
 Definition argsort_nat (l : list nat) : list nat :=
   map fst (sort_by snd (combine (seq 0 (length l)) l)).
-Definition aggregate_np (uniq_indices : list nat) (l : list row) : list row :=
-  let indices := uniq_indices in
-  let inverse := map (fun r => pos_of (first_index l (vals r)) indices) l in
+(* record["num_occurrences"][n] += k *)
+Fixpoint add_at (n : nat) (k : Z) (rec : list row) : list row :=
+  match rec, n with
+  | [], _ => []
+  | a :: r, O => set_oc a (oc a + k)%Z :: r
+  | a :: r, S m => a :: add_at m k r
+  end.
+(* the body of SampleSet.aggregate after np.unique, for ANY enumeration `u` of the distinct rows:
+     order = argsort(indices); indices = indices[order]
+     revorder[order] = arange(len(order)); inverse = revorder[inverse]
+     record = self.record[indices]; record.num_occurrences = 0
+     for old_idx, new_idx in enumerate(inverse): record.num_occurrences[new_idx] += self.record[old_idx].num_occurrences *)
+Definition unsort_accumulate (u : list (list Qc)) (l : list row) : list row :=
+  let indices := map (first_index l) u in
+  let inverse := map (fun r => idx_val (vals r) u) l in
   let order := argsort_nat indices in
   let indices' := map (fun k => nth k indices 0%nat) order in
-  let revorder := map (fun j => pos_of j order) (seq 0 (length order)) in
+  let revorder := map (fun j => idx_of j order) (seq 0 (length order)) in
   let inverse' := map (fun c => nth c revorder 0%nat) inverse in
-  let zero := mkRow [] 0 0%Z 0 [] in
-  let rec0 := map (fun i => set_oc (nth i l zero) 0%Z) indices' in
-  fold_left (fun rec (p : nat * row) =>
-               let '(ni, r) := p in
-               map (fun q : nat * row => if (fst q =? ni)%nat then set_oc (snd q) (oc (snd q) + oc r)%Z else snd q)
-                   (combine (seq 0 (length rec)) rec))
-            (combine inverse' l) rec0.
+  let rec0 := map (fun i => set_oc (nth i l rowz) 0%Z) indices' in
+  fold_left (fun rec (p : nat * row) => add_at (fst p) (oc (snd p)) rec) (combine inverse' l) rec0.
+Definition aggregate_np (l : list row) : list row := unsort_accumulate (np_unique_rows l) l.
 
 Definition aggregate (s : sset) : sset := with_rows s (aggregate_rows (rws s)).
 
@@ -124,7 +155,6 @@ Definition slice_indices (n : nat) (start stop step : option Z) : list nat :=
   let b := match stop with None => if neg then (-1)%Z else zn | Some x => clampi zn neg x end in
   zrange n a b st.
 
-Definition rowz : row := mkRow [] 0 0%Z 0 [].
 Definition select (l : list row) (idx : list nat) : list row := map (fun i => nth i l rowz) idx.
 
 Inductive skey := KEnergy | KOcc | KTag | KExtra (i : nat).
